@@ -345,6 +345,40 @@ def r_who_write_semaphore(ctx: Ctx, rule="R01.4"):
         rep.ob(rule, "the acquire coroutine is awaited", awaited, node=e.node)
 
 
+def r_no_shared_task(ctx: Ctx, rule: str):
+    """A cancellation travels from an awaiting task into what it awaits.  The pool's own coroutines await either their own
+    coroutine calls or a gather made on the spot; a Task kept in an attribute of the pool and awaited by whoever calls the method
+    (a coalesced flush, a memoised wait) is cancelled for ALL its waiters as soon as ONE of them is cancelled - a cancel(id) of one
+    pool task then reaches pool tasks that were not named."""
+    rep = ctx.rep
+    rep.rule(rule, "NO-SHARED-TASK: no coroutine of the pool classes awaits an object read from an attribute of the pool that holds a Task / Future "
+                   "(`await self._x` with `self._x = create_task(...)` / ensure_future / a Future); tasks are created only for pool-task wrappers and spawners")
+    held: Dict[str, Node] = {}
+    for f in ctx.pool_functions():
+        for n in ctx.nodes(f, lambda n: n.op == "assign" and isinstance(n.ast, (ast.Assign, ast.AnnAssign)) and n.ast.value is not None):
+            v = strip_cast(ctx.vals.resolve(n.func, n.ast.value))
+            if isinstance(v, ast.Call):
+                nm = ctx.an.scope(n.func).callee(v).name
+                if nm in CREATE_TASK or nm.rpartition(".")[2] in ("ensure_future", "create_task", "Future", "create_future", "shield"):
+                    for e in ctx.eff.of_node(n):
+                        if e.kind == "assign" and e.path.startswith("self.") and e.path.count(".") == 1:
+                            held[e.path] = n
+    n_aw = 0
+    for f in ctx.pool_functions():
+        P = ctx.eff.paths(f)
+        for n in ctx.distinct_sites(ctx.nodes(f, lambda n: n.op == "await")):
+            n_aw += 1
+            op = strip_cast(n.ast.value)
+            p = P.of(op)
+            p = ctx.eff.rebase(p, n.func, n.env) if p is not None and n.func is not f else p
+            if p is not None and p in held:
+                rep.ob(rule, "no coroutine of the pool awaits a task shared through an attribute", False, node=n,
+                       detail=f"{p} holds a task created at {held[p].where()}: every caller awaiting it is cancelled together with the first caller that is cancelled "
+                              "(Task.cancel() of a waiter cancels the task it waits for)")
+    rep.floor(rule, "awaits in the pool classes examined", n_aw, 8)
+    rep.ob(rule, "pool attributes holding tasks that are awaited", True, construct=f"{len(held)} task-holding attribute(s), none awaited" if held else "no task-holding attribute")
+
+
 def r_limit_is_assigned_value(ctx: Ctx, rule: str):
     """The limit put in force is the value that was assigned - for EVERY value, 0 included.  The validated setter works on its
     parameter as given: the parameter is not replaced by something computed from its truth value (`value or inf`, `x if value else y`
@@ -1288,7 +1322,11 @@ def r_execute_optional(ctx: Ctx, rule="R03.6"):
     # awaited under the coroutine-function guard
     tests = ctx.nodes(f, lambda n: n.op == "test" and mentions(n, "iscoroutinefunction"))
     if not tests:
-        rep.ob(rule, "coroutine functions are recognised (iscoroutinefunction guard)", None, func=f, construct="(no iscoroutinefunction test)")
+        # no guard at all: if nothing ever awaits the result of the call, a coroutine callback is created and dropped - a violation;
+        # some other way of telling (isawaitable(result), ...) is beyond this rule
+        any_await = [m for m in g.nodes if m.pred and m.op == "await" and any(V.trace(m.func, m.env, m.ast.value)[2] is u.ast for u in ucalls)]
+        rep.ob(rule, "coroutine functions are recognised (iscoroutinefunction guard)", None if any_await else False, func=f, construct="(no iscoroutinefunction test)",
+               detail="" if any_await else "the result of calling the callback is never awaited: an `async def` callback is called, its coroutine dropped, and never runs")
         return
     is_coro = guard_branch("iscoroutinefunction", True)
 
